@@ -150,6 +150,8 @@ impl Backend {
 impl VhostUserFrontendReqHandler for Backend {
     /// Forward vhost-user shared-object add request to the frontend.
     fn shared_object_add(&self, uuid: &VhostUserSharedMsg) -> HandlerResult<u64> {
+        #[cfg(feature = "verif-hooks")]
+        crate::verif::hold("be_req.lock", 0);
         let mut guard = self.inner.lock().unwrap();
         if !guard.shared_object_negotiated {
             return Err(io::Error::other("Shared Object feature not negotiated"));
@@ -159,6 +161,8 @@ impl VhostUserFrontendReqHandler for Backend {
 
     /// Forward vhost-user shared-object remove request to the frontend.
     fn shared_object_remove(&self, uuid: &VhostUserSharedMsg) -> HandlerResult<u64> {
+        #[cfg(feature = "verif-hooks")]
+        crate::verif::hold("be_req.lock", 0);
         let mut guard = self.inner.lock().unwrap();
         if !guard.shared_object_negotiated {
             return Err(io::Error::other("Shared Object feature not negotiated"));
@@ -172,6 +176,8 @@ impl VhostUserFrontendReqHandler for Backend {
         uuid: &VhostUserSharedMsg,
         fd: &dyn AsRawFd,
     ) -> HandlerResult<u64> {
+        #[cfg(feature = "verif-hooks")]
+        crate::verif::hold("be_req.lock", 0);
         let mut guard = self.inner.lock().unwrap();
         if !guard.shared_object_negotiated {
             return Err(io::Error::other("Shared Object feature not negotiated"));
@@ -185,6 +191,8 @@ impl VhostUserFrontendReqHandler for Backend {
 
     /// Forward vhost-user memory map file request to the frontend.
     fn shmem_map(&self, req: &VhostUserMMap, fd: &dyn AsRawFd) -> HandlerResult<u64> {
+        #[cfg(feature = "verif-hooks")]
+        crate::verif::hold("be_req.lock", 0);
         let mut guard = self.inner.lock().unwrap();
         if !guard.shmem_negotiated {
             return Err(io::Error::other("SHMEM feature not negotiated"));
@@ -194,6 +202,8 @@ impl VhostUserFrontendReqHandler for Backend {
 
     /// Forward vhost-user memory unmap file request to the frontend.
     fn shmem_unmap(&self, req: &VhostUserMMap) -> HandlerResult<u64> {
+        #[cfg(feature = "verif-hooks")]
+        crate::verif::hold("be_req.lock", 0);
         let mut guard = self.inner.lock().unwrap();
         if !guard.shmem_negotiated {
             return Err(io::Error::other("SHMEM feature not negotiated"));
